@@ -46,6 +46,8 @@ func scanCandidatesN(env *core.Env, mode string, perShard int, cp bool, maxFound
 	if len(res) > total {
 		res = res[:total]
 	}
+	env.Counters["scan."+mode+".inputs"] += scanned
+	env.Counters["scan."+mode+".selected"] += len(res)
 	env.Logf("candidate scan %s: %d generated inputs run on the real code in several variants, %d candidate cases selected", mode, scanned, len(res))
 	return res
 }
